@@ -1,0 +1,249 @@
+//go:build verif
+
+// Contracts for package parser, checked by /verif (csvqvc). Comment-only.
+//
+// C18, first half (the scanner is total): every Scanner method keeps the position inside the text, never indexes outside
+// it, reports EOF only at the end, and consumes at least one rune whenever it reports anything else, so every loop of the
+// scanner and the recursion of Scan over comments terminate (decreases clauses); the line and column a token or a syntax
+// error carries never exceed the number of runes consumed. The goyacc driver (parser.go, generated) and the printers
+// (String() of ast.go) are outside: strings are uninterpreted in this engine.
+package parser
+
+// the scanner's text is a []rune made from a string: no rune is negative, so EOF (-1) is never part of the text
+//@ spec def scanWf(s *Scanner) bool = s != nil && 0 <= s.srcPos && s.srcPos <= len(s.src) && 1 <= s.line && s.line <= s.srcPos + 1 &&
+//@     0 <= s.char && s.char <= s.srcPos && forall(k, 0, len(s.src), s.src[k] >= 0)
+//@ spec def runeAt(s *Scanner, p int) int32 = ite(p < len(s.src), s.src[p], EOF)
+
+//@ axiom eof_is_no_character: !unicode.IsSpace(EOF) && !unicode.IsLetter(EOF) && !unicode.IsDigit(EOF)
+
+//@ func (*bytes.Buffer).WriteRune
+//@   trusted assumed: appends to the buffer; the scanner's literal buffer is private to it and no obligation reads its contents
+//@   modifies nothing
+//@ func (*bytes.Buffer).Reset
+//@   trusted assumed: empties the buffer (contents not modelled)
+//@   modifies nothing
+
+//@ func (*Scanner).peekFurtherAhead
+//@   property C18 C19
+//@   safety
+//@   requires scanWf(s) && 1 <= n && n <= len(s.src) + 2
+//@   ensures [looks-inside-or-eof] result == runeAt(s, s.srcPos + n - 1)
+//@   modifies nothing
+
+//@ func (*Scanner).peek
+//@   property C18 C19
+//@   safety
+//@   requires scanWf(s)
+//@   ensures [current-or-eof] result == runeAt(s, s.srcPos)
+//@   modifies nothing
+
+//@ func (*Scanner).peekNextLetter
+//@   property C18 C19
+//@   safety
+//@   terminates
+//@   requires scanWf(s) && 1 <= n && s.srcPos + n - 1 <= len(s.src)
+//@   loop 1 invariant scanWf(s) && 1 <= n && s.srcPos + n - 1 <= len(s.src)
+//@   loop 1 decreases len(s.src) + 1 - n
+//@   modifies nothing
+
+//@ func (*Scanner).checkNewLine
+//@   property C18 C19
+//@   safety
+//@   requires s != nil && 1 <= s.srcPos && s.srcPos <= len(s.src) && 1 <= s.line && s.line <= s.srcPos && 0 <= s.char && s.char <= s.srcPos
+//@   requires forall(k, 0, len(s.src), s.src[k] >= 0) && ch == s.src[s.srcPos - 1]
+//@   ensures [stays-inside] scanWf(s) && old(s.srcPos) <= s.srcPos && s.srcPos <= old(s.srcPos) + 1 && result >= 0
+//@   modifies s.srcPos, s.line, s.char
+
+//@ func (*Scanner).next
+//@   property C18 C19
+//@   safety
+//@   requires scanWf(s)
+//@   ensures [stays-inside] scanWf(s)
+//@   ensures [eof-only-at-the-end] (result == EOF) == (old(s.srcPos) == len(s.src))
+//@   ensures [eof-consumes-nothing] result == EOF ==> s.srcPos == old(s.srcPos) && s.line == old(s.line) && s.char == old(s.char)
+//@   ensures [progress] result != EOF ==> old(s.srcPos) < s.srcPos && s.srcPos <= old(s.srcPos) + 2 && result >= 0
+//@   modifies s.srcPos, s.line, s.char
+
+// --- token scanners: each keeps the scanner well formed, never moves backwards, and terminates -------------------------
+//@ spec def scanStep(s *Scanner, p0 int) bool = scanWf(s) && p0 <= s.srcPos
+
+//@ func (*Scanner).scanString
+//@   property C18 C19
+//@   safety
+//@   terminates
+//@   requires scanWf(s)
+//@   ensures [stays-inside] scanStep(s, old(s.srcPos))
+//@   loop 1 invariant scanStep(s, old(s.srcPos))
+//@   loop 1 decreases len(s.src) - s.srcPos
+//@   loop 1 modifies s.srcPos, s.line, s.char
+//@   modifies s.srcPos, s.line, s.char
+
+//@ func (*Scanner).scanIdentifier
+//@   property C18 C19
+//@   safety
+//@   terminates
+//@   requires scanWf(s)
+//@   ensures [stays-inside] scanStep(s, old(s.srcPos))
+//@   loop 1 invariant scanStep(s, old(s.srcPos))
+//@   loop 1 decreases len(s.src) - s.srcPos
+//@   loop 1 modifies s.srcPos, s.line, s.char
+//@   modifies s.srcPos, s.line, s.char
+
+//@ func (*Scanner).scanConstant
+//@   property C18 C19
+//@   safety
+//@   terminates
+//@   requires scanWf(s)
+//@   ensures [stays-inside] scanStep(s, old(s.srcPos))
+//@   loop 1 invariant scanStep(s, old(s.srcPos))
+//@   loop 1 decreases len(s.src) - s.srcPos
+//@   loop 1 modifies s.srcPos, s.line, s.char
+//@   modifies s.srcPos, s.line, s.char
+
+//@ func (*Scanner).scanUrl
+//@   property C18 C19
+//@   safety
+//@   terminates
+//@   requires scanWf(s)
+//@   ensures [stays-inside] scanStep(s, old(s.srcPos))
+//@   loop 1 invariant scanStep(s, old(s.srcPos))
+//@   loop 1 decreases len(s.src) - s.srcPos
+//@   loop 1 modifies s.srcPos, s.line, s.char
+//@   modifies s.srcPos, s.line, s.char
+
+//@ func (*Scanner).scanNumber
+//@   property C18 C19
+//@   safety
+//@   terminates
+//@   requires scanWf(s)
+//@   ensures [stays-inside] scanStep(s, old(s.srcPos))
+//@   ensures [number-token] result0 == INTEGER || result0 == FLOAT
+//@   loop 1 invariant scanStep(s, old(s.srcPos))
+//@   loop 1 decreases len(s.src) - s.srcPos
+//@   loop 1 modifies s.srcPos, s.line, s.char
+//@   loop 2 invariant scanStep(s, old(s.srcPos))
+//@   loop 2 decreases len(s.src) - s.srcPos
+//@   loop 2 modifies s.srcPos, s.line, s.char
+//@   loop 3 invariant scanStep(s, old(s.srcPos))
+//@   loop 3 decreases len(s.src) - s.srcPos
+//@   loop 3 modifies s.srcPos, s.line, s.char
+//@   modifies s.srcPos, s.line, s.char
+
+//@ func (*Scanner).scanOperator
+//@   property C18 C19
+//@   safety
+//@   terminates
+//@   requires scanWf(s)
+//@   ensures [stays-inside] scanStep(s, old(s.srcPos))
+//@   loop 1 invariant scanStep(s, old(s.srcPos))
+//@   loop 1 decreases len(s.src) - s.srcPos
+//@   loop 1 modifies s.srcPos, s.line, s.char
+//@   modifies s.srcPos, s.line, s.char
+
+//@ func (*Scanner).isCommentRune
+//@   property C18 C19
+//@   safety
+//@   requires scanWf(s)
+//@   ensures [stays-inside] scanStep(s, old(s.srcPos))
+//@   modifies s.srcPos, s.line, s.char
+
+//@ func (*Scanner).isLineCommentRune
+//@   property C18 C19
+//@   safety
+//@   requires scanWf(s)
+//@   ensures [stays-inside] scanStep(s, old(s.srcPos))
+//@   modifies s.srcPos, s.line, s.char
+
+//@ func (*Scanner).scanComment
+//@   property C18 C19
+//@   safety
+//@   terminates
+//@   requires scanWf(s)
+//@   ensures [stays-inside] scanStep(s, old(s.srcPos))
+//@   loop 1 invariant scanStep(s, old(s.srcPos))
+//@   loop 1 decreases len(s.src) - s.srcPos
+//@   loop 1 modifies s.srcPos, s.line, s.char
+//@   modifies s.srcPos, s.line, s.char
+
+//@ func (*Scanner).scanLineComment
+//@   property C18 C19
+//@   safety
+//@   terminates
+//@   requires scanWf(s)
+//@   ensures [stays-inside] scanStep(s, old(s.srcPos))
+//@   loop 1 invariant scanStep(s, old(s.srcPos))
+//@   loop 1 decreases len(s.src) - s.srcPos
+//@   loop 1 modifies s.srcPos, s.line, s.char
+//@   modifies s.srcPos, s.line, s.char
+
+//@ func (*Scanner).scanExternalCommandQuotedString
+//@   property C18 C19
+//@   safety
+//@   terminates
+//@   requires scanWf(s)
+//@   ensures [stays-inside] scanStep(s, old(s.srcPos))
+//@   loop 1 invariant scanStep(s, old(s.srcPos))
+//@   loop 1 decreases len(s.src) - s.srcPos
+//@   loop 1 modifies s.srcPos, s.line, s.char
+//@   modifies s.srcPos, s.line, s.char
+
+//@ func (*Scanner).scanExternalCommandCSVQExpression
+//@   property C18 C19
+//@   safety
+//@   terminates
+//@   requires scanWf(s)
+//@   ensures [stays-inside] scanStep(s, old(s.srcPos))
+//@   loop 1 invariant scanStep(s, old(s.srcPos))
+//@   loop 1 decreases len(s.src) - s.srcPos
+//@   loop 1 modifies s.srcPos, s.line, s.char
+//@   modifies s.srcPos, s.line, s.char
+
+//@ func (*Scanner).scanExternalCommand
+//@   property C18 C19
+//@   safety
+//@   terminates
+//@   requires scanWf(s)
+//@   ensures [stays-inside] scanStep(s, old(s.srcPos))
+//@   loop 1 invariant scanStep(s, old(s.srcPos))
+//@   loop 1 decreases len(s.src) - s.srcPos
+//@   loop 1 modifies s.srcPos, s.line, s.char
+//@   modifies s.srcPos, s.line, s.char
+
+//@ func TokenLiteral
+//@   property C18 C19
+//@   safety
+//@   modifies nothing
+
+//@ func (*Scanner).searchKeyword
+//@   property C18 C19
+//@   safety
+//@   terminates
+//@   ensures [keyword-or-identifier] (KeywordFrom <= result0 && result0 <= KeywordTo) || result0 == IDENTIFIER
+//@   loop 1 invariant KeywordFrom <= i && i <= KeywordTo + 1
+//@   loop 1 decreases KeywordTo + 1 - i
+//@   modifies nothing
+
+// --- the scanner as a whole ------------------------------------------------------------------------------------------------
+//@ func (*Scanner).Init
+//@   property C18 C19
+//@   safety
+//@   requires s != nil
+//@   ensures [well-formed-at-start] scanWf(s) && s.srcPos == 0 && result == s
+//@   modifies s, fresh
+
+// Scan: the token is EOF exactly when nothing but white space and comments was left; every other token consumed at least
+// one rune (so a driver that stops at EOF calls Scan at most len+1 times); the position it reports lies inside the text.
+//@ func (*Scanner).Scan
+//@   property C18 C19
+//@   safety
+//@   terminates
+//@   decreases len(s.src) - s.srcPos
+//@   requires scanWf(s)
+//@   ensures [stays-inside] scanStep(s, old(s.srcPos))
+//@   ensures [eof-only-at-the-end] result0.Token == EOF ==> s.srcPos == len(s.src)
+//@   ensures [progress] result0.Token != EOF ==> old(s.srcPos) < s.srcPos
+//@   ensures [position-inside-the-text] 1 <= result0.Line && result0.Line <= len(s.src) + 1 && 0 <= result0.Char && result0.Char <= len(s.src)
+//@   loop 1 invariant scanStep(s, old(s.srcPos))
+//@   loop 1 decreases len(s.src) - s.srcPos
+//@   loop 1 modifies s.srcPos, s.line, s.char
+//@   modifies s, fresh, key:E:string#0
